@@ -83,10 +83,39 @@ func c07PointRaw(f, gf, x, y int) s2.Point {
 	return s2.CellFromCellID(emb.FromFaceIJ(f, gf, cx, cy)).Vertex(k)
 }
 
-func c07Pts(f, gf int, vs [][2]int, reverse bool) []s2.Point {
+// c07V is a grid vertex: [x, y] on the face of its region, or [face, x, y] (loops over two faces).
+type c07V []int
+
+func (v c07V) xy() (int, int) { return v[len(v)-2], v[len(v)-1] }
+
+// c07Adjacency re-checks, once, the face adjacency the model uses for two-face loops: the side
+// x = N of an even face f is the side x = 0 of face f+1 (same y); the side y = N of an odd
+// face f is the side y = 0 of face f+1 (same x).
+var c07AdjacencyChecked = func() bool {
+	const g, n = 3, 8
+	for f := 0; f < 5; f++ {
+		for t := 0; t <= n; t++ {
+			a, b := c07PointRaw(f, g, n, t), c07PointRaw(f+1, g, 0, t)
+			if f%2 == 1 {
+				a, b = c07PointRaw(f, g, t, n), c07PointRaw(f+1, g, t, 0)
+			}
+			if a.Distance(b) > 1e-15 {
+				panic(fmt.Sprintf("embedding: faces %d and %d are not glued as the model assumes", f, f+1))
+			}
+		}
+	}
+	return true
+}()
+
+func c07Pts(f, gf int, vs []c07V, reverse bool) []s2.Point {
 	pts := make([]s2.Point, len(vs))
 	for i, v := range vs {
-		pts[i] = c07Point(f, gf, v[0], v[1])
+		x, y := v.xy()
+		vf := f
+		if len(v) == 3 {
+			vf = v[0]
+		}
+		pts[i] = c07Point(vf, gf, x, y)
 	}
 	if reverse {
 		for i, j := 0, len(pts)-1; i < j; i, j = i+1, j-1 {
@@ -97,7 +126,7 @@ func c07Pts(f, gf int, vs [][2]int, reverse bool) []s2.Point {
 }
 
 type c07Region struct {
-	Loops [][][2]int `json:"loops"`
+	Loops [][]c07V `json:"loops"`
 	Top   int        `json:"top"`
 }
 
@@ -454,9 +483,17 @@ func c07Desc(r c07Region) string {
 	var sb strings.Builder
 	for k, l := range r.Loops {
 		x0, y0, x1, y1 := 1<<30, 1<<30, -1, -1
+		faces := map[int]bool{}
 		for _, v := range l {
-			x0, x1 = min(x0, v[0]), max(x1, v[0])
-			y0, y1 = min(y0, v[1]), max(y1, v[1])
+			x, y := v.xy()
+			x0, x1 = min(x0, x), max(x1, x)
+			y0, y1 = min(y0, y), max(y1, y)
+			if len(v) == 3 {
+				faces[v[0]] = true
+			}
+		}
+		if len(faces) > 1 {
+			sb.WriteString("two-face:")
 		}
 		if k > 0 {
 			sb.WriteString("+")
@@ -472,7 +509,7 @@ func opC07Forest(raw json.RawMessage, o *Out) {
 	var c struct {
 		F, Gf, N, Code int
 		Real           string
-		Loops          [][][2]int
+		Loops          [][]c07V
 		Want           []struct {
 			Depth  int
 			Hole   bool
